@@ -8,6 +8,13 @@
 // (client sslSessionId_t) travel between threads through mutex-protected slots, so a session created on thread A is
 // resumed on thread B.  Designated threads rotate the session-ticket keys (matrixSslLoadSessionTicketKeys /
 // matrixSslDeleteSessionTicketKey) and replace the CRL in the global cache while the others handshake.
+// The global CRL cache (crypto/keyformat/crl.c) is part of the shared state: any thread may load / replace the CRL of an issuer
+// (psX509ParseCRL + psCRL_Update(crl, 1); inserted unauthenticated - "fetched out of handshake" - or authenticated first with
+// psX509AuthenticateCRL), delete it (psCRL_DeleteAll, or the psCRL_GetCRLForCert + psCRL_Delete pattern of apps/ssl/client.c) and
+// validate leaf+CA chains against it (psX509AuthenticateCert / matrixValidateCerts with the trust anchors of the shared client
+// key set; leaves that some CRL versions revoke and leaves that none revokes).  The server sends leaf + CA, so every full handshake
+// consults (and, if necessary, authenticates) the cached CRL of its issuer; a second server identity whose leaf is revoked by some
+// CRL versions gives handshakes that must fail or succeed depending on the cache content.
 // The program is executed several times under different yield seeds (seeded sched_yield / short nanosleep at every
 // API boundary and, through ld --wrap, before every psLockMutex and after every psUnlockMutex).
 //
@@ -28,6 +35,14 @@
 //                           pressure could have evicted E);
 //         ticket key K    : present from its load; a successful delete makes it absent for good; a ticket / TLS 1.3
 //                           PSK resumption presenting a ticket under K resumes iff present.
+//         CRL of issuer I : a register holding "none" or one CRL version; load/replace writes a version, delete writes
+//                           "none"; a validation of a chain that carries its issuer reads it: the leaf is rejected
+//                           (PS_CERT_AUTH_FAIL_REVOKED, CRL_CHECK_REVOKED_AND_AUTHENTICATED) iff the version read revokes it,
+//                           passes with CRL_CHECK_PASSED_AND_AUTHENTICATED iff the version read does not, CRL_CHECK_NOT_EXPECTED
+//                           iff none.  Consequences: a certificate revoked by every CRL version that was in the cache during
+//                           the validation is never accepted, one revoked by no version is never reported revoked, and a
+//                           "..._BUT_NOT_AUTHENTICATED" status never shows when the chain carries the CRL issuer (the
+//                           validation authenticates the CRL under the table lock before it reads the flag).
 //       Independently: every handshake completes (a useless credential falls back to a full handshake), client and
 //       server agree on "resumed", delivered application data equals sent data, new tickets are issued under a key
 //       that was not yet removed when the handshake started.
@@ -53,6 +68,7 @@ int c20_sid_id(const sslSessionId_t *sid, unsigned char out[32]);
 int c20_sid_ticket_key_name(const sslSessionId_t *sid, unsigned char out[16]);
 void c20_sid_copy_id_credential(sslSessionId_t *dst, const sslSessionId_t *src);
 int c20_ecflag(int which);
+psX509Cert_t *c20_keys_cacerts(sslKeys_t *keys);
 // ThreadSanitizer debugging interface (compiler-rt/lib/tsan/rtl/tsan_interface.h)
 int __tsan_get_report_data(void *report, const char **description, int *count, int *stack_count, int *mop_count, int *loc_count,
                            int *mutex_count, int *thread_count, int *unique_tid_count, void **sleep_trace, unsigned long trace_size) __attribute__((weak));
@@ -161,7 +177,23 @@ Report render(const RawReport &r) {
 std::string verif_dir() { const char *e = getenv("VERIF_DIR"); return e ? e : "/verif"; }
 
 sslKeys_t *g_srv = nullptr, *g_cli = nullptr;
-Bytes g_crl_der[3];
+sslKeys_t *g_srv_rev = nullptr;          // second server identity: leaf props/C20/pki/good_rsa.pem, which the "rev" CRL versions of ca_rsa revoke
+// CRL versions per issuer (0 = ca_rsa, 1 = ca_ec).  "revokes" = lists the serial of the revocable leaf of that issuer.
+struct CrlVer { const char *file; bool revokes; Bytes der; };
+CrlVer g_crlv[2][6] = { { { "crl_rsa_a.der", false, {} }, { "crl_rsa_b.der", false, {} }, { "crl_rsa_c.der", false, {} },
+                          { "crl_rsa_rev_a.der", true, {} }, { "crl_rsa_rev_b.der", true, {} }, { "crl_rsa_rev_c.der", true, {} } },
+                        { { "crl_ec_a.der", false, {} }, { "crl_ec_b.der", false, {} }, { "crl_ec_rev_a.der", true, {} }, { "crl_ec_rev_b.der", true, {} }, { nullptr, false, {} }, { nullptr, false, {} } } };
+const int N_CRLV[2] = { 6, 4 };
+const char *issuer_name[2] = { "ca_rsa", "ca_ec" };
+// validation chains: leaf + its CA (PEM, parsed afresh by every validation: a psX509Cert_t chain belongs to one thread)
+struct ChainDef { const char *leaf; int issuer; bool revocable; Bytes leaf_pem; };
+ChainDef g_chain[4] = { { "props/C20/pki/good_rsa.pem", 0, true, {} }, { "pki/srv_rsa.pem", 0, false, {} }, { "props/C20/pki/good_ec.pem", 1, true, {} }, { "pki/srv_ec.pem", 1, false, {} } };
+const char *chain_name[4] = { "good_rsa+ca", "srv_rsa+ca", "good_ec+ca", "srv_ec+ca" };
+Bytes g_ca_pem[2];
+// Mutators of the CRL cache that work with a pointer into the cache (psCRL_GetCRLForCert + psCRL_Delete, the apps/ssl/client.c
+// pattern) need the application to keep other mutators away between the two calls; loads and psCRL_DeleteAll take the lock shared
+// (they stay concurrent with each other), validations and handshakes never touch it.
+pthread_rwlock_t g_crl_app_lock = PTHREAD_RWLOCK_INITIALIZER;
 pthread_mutex_t g_rot_mu = PTHREAD_MUTEX_INITIALIZER;
 std::deque<std::string> g_keys_live;     // ticket key names loaded and not handed out for deletion (guarded by g_rot_mu)
 uint64_t g_key_seq = 0;                  // guarded by g_rot_mu
@@ -198,13 +230,20 @@ const SuiteInfo SUITES12[] = { { 0x009C, "RSA_AES128_GCM", false, false }, { 0xC
 const SuiteInfo SUITES13[] = { { 0x1301, "TLS13_AES128_GCM", true, true }, { 0x1302, "TLS13_AES256_GCM", true, true }, { 0x1303, "TLS13_CHACHA20", true, true } };
 const size_t DATA_LEN[] = { 0, 1, 100, 1500, 16384, 20000, 40000 };
 
-enum OpKind { OP_CONNECT = 0, OP_RESUME, OP_CLOSE_HELD, OP_DATA_HELD, OP_ROTATE, OP_CRL };
-const char *op_name[] = { "connect", "resume", "close-held", "data-held", "rotate", "crl" };
+enum OpKind { OP_CONNECT = 0, OP_RESUME, OP_CLOSE_HELD, OP_DATA_HELD, OP_ROTATE, OP_CRL, OP_VALIDATE, OP_CRL_DELETE, OP_CONNECT_REV };
+const char *op_name[] = { "connect", "resume", "close-held", "data-held", "rotate", "crl", "validate", "crl-delete", "connect-rev" };
 struct Op {
     int kind = OP_CONNECT;
     int mode = ID12; int suite = 0; int curve = 0; int slot = 0;
     bool hold = false, clone = false, poison = false, srv_first = false, delete_old = true;
     int c2s = 0, s2c = 0; int crl = 0;
+    // CRL cache operations
+    int issuer = 0;              // OP_CRL / OP_CRL_DELETE: 0 = ca_rsa, 1 = ca_ec
+    bool auth_first = false;     // OP_CRL: psX509AuthenticateCRL before the CRL goes into the cache (else it is inserted unauthenticated)
+    bool del_all = false;        // OP_CRL_DELETE: psCRL_DeleteAll, else psCRL_GetCRLForCert + psCRL_Delete
+    int chain = 0;               // OP_VALIDATE: index into g_chain
+    bool via_anchors = false;    // OP_VALIDATE: matrixValidateCerts against the shared trust anchors, else psX509AuthenticateCert on the chain alone
+    bool leaf_only = false;      // OP_VALIDATE (via_anchors only): the chain does not carry its issuer
 };
 
 // ------------------------------------------------------------------------------------------------ credentials
@@ -243,7 +282,7 @@ void slot_put(int s, Cred *c, bool only_if_empty) {
 }
 
 // ------------------------------------------------------------------------------------------------ event log
-enum EvKind { EV_HS = 0, EV_DATA, EV_CLOSE, EV_LOAD, EV_DELETE, EV_CRL, EV_POISON };
+enum EvKind { EV_HS = 0, EV_DATA, EV_CLOSE, EV_LOAD, EV_DELETE, EV_CRL, EV_POISON, EV_VALIDATE, EV_CRLDEL };
 struct Ev {
     int kind = EV_HS; int thread = 0; uint64_t s = 0, e = 0;
     int mode = ID12; int suite = 0; bool ecdhe = false;
@@ -256,8 +295,15 @@ struct Ev {
     int rc = 0;
     bool data_ok = true; size_t n_c2s = 0, n_s2c = 0;
     std::string note;
+    // CRL cache
+    bool revsrv = false;         // HS: against the server identity whose leaf some CRL versions revoke (never resumed, credential discarded)
+    bool rejected_revoked = false;   // HS revsrv: the client ended the handshake with a fatal certificate_revoked alert
+    int issuer = 0, ver = -1;    // CRL: version written; CRLDEL: issuer (pointer delete); VALIDATE: issuer of the chain
+    bool auth_first = false, del_all = false;
+    int chain = 0; bool via_anchors = false, leaf_only = false;
+    int rstat = 0, astat = 0;    // VALIDATE: revokedStatus / authStatus of the leaf afterwards
 };
-const char *ev_name[] = { "hs", "data", "close", "load", "delete", "crl", "poison" };
+const char *ev_name[] = { "hs", "data", "close", "load", "delete", "crl", "poison", "validate", "crl-delete" };
 
 // Workers stop at API boundaries while a ThreadSanitizer report waits for the main thread's verdict (bounded wait).
 inline void park_while_report_pending() {
@@ -325,7 +371,7 @@ bool shuttle(Ep &from, Ep &to) {
 void settle(Ep &c, Ep &s) { for (int r = 0; r < 200; r++) { bool mv = shuttle(c, s); mv |= shuttle(s, c); if (!mv) break; } }
 
 struct Conn {
-    Ep c, s; Cred *cred = nullptr; int slot = 0; bool cred_is_clone = false; bool poisoned = false; bool completed = false;
+    Ep c, s; Cred *cred = nullptr; int slot = 0; bool cred_is_clone = false; bool poisoned = false; bool completed = false; bool discard_cred = false;
     int mode = ID12; std::string bound_id; uint64_t n_c2s = 0, n_s2c = 0;
     ~Conn() { c.close(); s.close(); delete cred; }
 };
@@ -366,7 +412,7 @@ void do_close(Worker &w, Conn *cn, bool srv_first) {
     ev.e = tick();
     w.log.push_back(ev);
     // the credential becomes available to other threads only now (a sslSessionId_t belongs to one live connection at a time)
-    if (cn->cred) { slot_put(cn->slot, cn->cred, cn->cred_is_clone); cn->cred = nullptr; }
+    if (cn->cred && !cn->discard_cred) { slot_put(cn->slot, cn->cred, cn->cred_is_clone); cn->cred = nullptr; }
     delete cn;
 }
 
@@ -376,7 +422,8 @@ void do_connect(Worker &w, const Op &op) {
         if (op.clone) { cred = slot_clone(op.slot); is_clone = cred != nullptr; }
         if (!cred) cred = slot_take(op.slot);
     }
-    Ev ev; ev.kind = EV_HS; ev.thread = w.idx;
+    const bool revsrv = op.kind == OP_CONNECT_REV;
+    Ev ev; ev.kind = EV_HS; ev.thread = w.idx; ev.revsrv = revsrv;
     if (cred) { ev.in_ident = sid_ident(*cred); ev.attempt = ev.in_ident.empty() ? -1 : cred->mode; }
     else {
         cred = new Cred; cred->mode = op.mode; cred->suite = op.suite; cred->curve = op.curve;
@@ -385,7 +432,7 @@ void do_connect(Worker &w, const Op &op) {
     const int mode = cred->mode;
     const SuiteInfo &su = mode == PSK13 ? SUITES13[cred->suite % 3] : SUITES12[cred->suite % 5];
     ev.mode = mode; ev.suite = su.id; ev.ecdhe = su.ecdhe;
-    Conn *cn = new Conn; cn->cred = cred; cn->slot = op.slot; cn->cred_is_clone = is_clone; cn->mode = mode;
+    Conn *cn = new Conn; cn->cred = cred; cn->slot = op.slot; cn->cred_is_clone = is_clone; cn->mode = mode; cn->discard_cred = revsrv;
     cn->c.progress = cn->s.progress = &w.progress;
 
     sslSessOpts_t so, co; memset(&so, 0, sizeof so); memset(&co, 0, sizeof co);
@@ -401,7 +448,7 @@ void do_connect(Worker &w, const Op &op) {
 
     ev.s = tick();
     c20_maybe_yield();
-    rc = matrixSslNewServerSession(&cn->s.ssl, g_srv, NULL, &so);
+    rc = matrixSslNewServerSession(&cn->s.ssl, revsrv ? g_srv_rev : g_srv, NULL, &so);
     if (rc < 0) { cn->s.ssl = nullptr; ev.note = fmt("matrixSslNewServerSession rc=%d", rc); }
     else {
         psCipher16_t cs[1] = { su.id };
@@ -420,8 +467,11 @@ void do_connect(Worker &w, const Op &op) {
         ev.note = fmt("client: complete=%d failed=%d rc=%d alert=%d/%d; server: complete=%d failed=%d rc=%d alert=%d/%d", (int) cn->c.hs_complete(), (int) cn->c.failed, cn->c.last_rc, cn->c.alert_level,
                       cn->c.alert_desc, (int) cn->s.hs_complete(), (int) cn->s.failed, cn->s.last_rc, cn->s.alert_level, cn->s.alert_desc);
     cn->completed = ev.completed;
+    // the client refuses a revoked server certificate with a fatal certificate_revoked alert, which the server receives
+    if (revsrv && !ev.completed) ev.rejected_revoked = cn->c.failed && cn->s.alert_level == SSL_ALERT_LEVEL_FATAL && cn->s.alert_desc == SSL_ALERT_CERTIFICATE_REVOKED;
     w.log.push_back(ev);
     if (!ev.completed) { do_close(w, cn, op.srv_first); return; }
+    if (revsrv) { do_data(w, *cn, op.c2s, op.s2c); do_close(w, cn, op.srv_first); return; }   // this identity's sessions are not passed on
 
     // a copy of a session-id credential may be shared at once, so that other threads resume the same cache entry
     // while this connection is still open (reference count of the entry > 1)
@@ -465,14 +515,85 @@ void do_rotate(Worker &w, const Op &op) {
     if (de.rc < 0) { pthread_mutex_lock(&g_rot_mu); g_keys_live.push_front(victim); pthread_mutex_unlock(&g_rot_mu); }
 }
 
-void do_crl(Worker &w, const Op &op) {
-    Ev ev; ev.kind = EV_CRL; ev.thread = w.idx;
-    Bytes der = g_crl_der[op.crl % 3];   // private copy: the parser takes a non-const buffer
+// A chain for the calling thread: leaf, optionally followed by its CA (so that cert->next is the CRL issuer).
+psX509Cert_t *parse_chain(int chain, bool with_issuer) {
+    const ChainDef &d = g_chain[chain]; psX509Cert_t *c = NULL;
+    if (psX509ParseCertData(NULL, d.leaf_pem.data(), d.leaf_pem.size(), &c, 0) < 0 || !c) { if (c) psX509FreeCert(c); return NULL; }
+    if (with_issuer && (psX509ParseCertData(NULL, g_ca_pem[d.issuer].data(), g_ca_pem[d.issuer].size(), &c, 0) < 0 || !c->next)) { psX509FreeCert(c); return NULL; }
+    return c;
+}
+// Parse a CRL version; optionally authenticate it with a private copy of its CA before it goes anywhere near the cache
+// (psX509AuthenticateCRL does not use the table lock, so it is only legal on a CRL no other thread can reach).
+psX509Crl_t *make_crl(int issuer, int ver, bool auth_first, std::string &err) {
+    Bytes der = g_crlv[issuer][ver].der;   // private copy: the parser takes a non-const buffer
     psX509Crl_t *crl = NULL;
+    int32 rc = psX509ParseCRL(NULL, &crl, der.data(), (int32) der.size());
+    if (rc < 0 || !crl) { err = fmt("psX509ParseCRL(%s) rc=%d", g_crlv[issuer][ver].file, rc); return NULL; }
+    if (auth_first) {
+        psX509Cert_t *ca = NULL;
+        if (psX509ParseCertData(NULL, g_ca_pem[issuer].data(), g_ca_pem[issuer].size(), &ca, 0) < 0 || !ca) { err = "CA parse failed"; psX509FreeCRL(crl); if (ca) psX509FreeCert(ca); return NULL; }
+        rc = psX509AuthenticateCRL(ca, crl, NULL);
+        psX509FreeCert(ca);
+        if (rc != PS_SUCCESS || crl->authenticated != 1) { err = fmt("psX509AuthenticateCRL(%s) rc=%d authenticated=%d", g_crlv[issuer][ver].file, rc, (int) crl->authenticated); psX509FreeCRL(crl); return NULL; }
+    }
+    return crl;
+}
+// load / replace: after a successful psCRL_Update the cache owns the CRL (and has freed the one it replaced)
+int crl_install(int issuer, int ver, bool auth_first, std::string &err) {
+    psX509Crl_t *crl = make_crl(issuer, ver, auth_first, err);
+    if (!crl) return -1;
+    c20_maybe_yield();
+    int ins = psCRL_Update(crl, 1);
+    if (!ins) psX509FreeCRL(crl);
+    return ins;
+}
+
+void do_crl(Worker &w, const Op &op) {
+    Ev ev; ev.kind = EV_CRL; ev.thread = w.idx; ev.issuer = op.issuer; ev.ver = op.crl % N_CRLV[op.issuer]; ev.auth_first = op.auth_first;
+    pthread_rwlock_rdlock(&g_crl_app_lock);
     ev.s = tick(); c20_maybe_yield();
-    ev.rc = psX509ParseCRL(NULL, &crl, der.data(), (int32) der.size());
-    if (ev.rc >= 0) { c20_maybe_yield(); int ins = psCRL_Update(crl, 1); if (!ins) psX509FreeCRL(crl); ev.rc = ins; }   // after insertion the cache owns the CRL
+    ev.rc = crl_install(ev.issuer, ev.ver, ev.auth_first, ev.note);
     ev.e = tick();
+    pthread_rwlock_unlock(&g_crl_app_lock);
+    w.log.push_back(ev);
+}
+
+void do_crl_delete(Worker &w, const Op &op) {
+    Ev ev; ev.kind = EV_CRLDEL; ev.thread = w.idx; ev.issuer = op.issuer; ev.del_all = op.del_all;
+    if (op.del_all) {
+        pthread_rwlock_rdlock(&g_crl_app_lock);
+        ev.s = tick(); c20_maybe_yield();
+        psCRL_DeleteAll(); ev.rc = 1;
+        ev.e = tick();
+        pthread_rwlock_unlock(&g_crl_app_lock);
+    } else {
+        // apps/ssl/client.c: look the CRL of a certificate's issuer up and delete it.  The pointer is only compared by psCRL_Delete.
+        psX509Cert_t *leaf = parse_chain(op.issuer == 0 ? 0 : 2, false);
+        if (!leaf) { w.fatal = "certificate parse failed"; return; }
+        pthread_rwlock_wrlock(&g_crl_app_lock);
+        ev.s = tick(); c20_maybe_yield();
+        psX509Crl_t *crl = psCRL_GetCRLForCert(leaf);
+        c20_maybe_yield();
+        ev.rc = crl ? psCRL_Delete(crl) : 0;
+        if (crl && !ev.rc) ev.note = "psCRL_GetCRLForCert returned a CRL that psCRL_Delete did not find";
+        ev.e = tick();
+        pthread_rwlock_unlock(&g_crl_app_lock);
+        psX509FreeCert(leaf);
+    }
+    w.log.push_back(ev);
+}
+
+void do_validate(Worker &w, const Op &op) {
+    Ev ev; ev.kind = EV_VALIDATE; ev.thread = w.idx; ev.chain = op.chain; ev.issuer = g_chain[op.chain].issuer; ev.via_anchors = op.via_anchors; ev.leaf_only = op.leaf_only && op.via_anchors;
+    psX509Cert_t *chain = parse_chain(op.chain, !ev.leaf_only), *found = NULL;
+    if (!chain) { w.fatal = "certificate chain parse failed"; return; }
+    w.progress.fetch_add(1, std::memory_order_relaxed); park_while_report_pending();
+    ev.s = tick(); c20_maybe_yield();
+    if (ev.via_anchors) ev.rc = matrixValidateCerts(NULL, chain, c20_keys_cacerts(g_cli), (char *) "localhost", &found, NULL, NULL);
+    else ev.rc = psX509AuthenticateCert(NULL, chain, NULL, &found, NULL, NULL);
+    ev.e = tick();
+    ev.rstat = chain->revokedStatus; ev.astat = chain->authStatus;
+    psX509FreeCert(chain);
     w.log.push_back(ev);
 }
 
@@ -487,11 +608,13 @@ void *worker_main(void *arg) {
         const Op &op = w.ops[i];
         w.cur_op.store((int) i, std::memory_order_relaxed); w.progress.fetch_add(1, std::memory_order_relaxed);
         switch (op.kind) {
-        case OP_CONNECT: case OP_RESUME: do_connect(w, op); break;
+        case OP_CONNECT: case OP_RESUME: case OP_CONNECT_REV: do_connect(w, op); break;
         case OP_CLOSE_HELD: if (w.held) { do_close(w, w.held, op.srv_first); w.held = nullptr; } break;
         case OP_DATA_HELD: if (w.held) do_data(w, *w.held, op.c2s, op.s2c); break;
         case OP_ROTATE: do_rotate(w, op); break;
         case OP_CRL: do_crl(w, op); break;
+        case OP_CRL_DELETE: do_crl_delete(w, op); break;
+        case OP_VALIDATE: do_validate(w, op); break;
         }
     }
     if (w.held) { do_close(w, w.held, false); w.held = nullptr; }
@@ -512,6 +635,10 @@ std::string ev_str(const Ev &e) {
     if (e.kind == EV_POISON) s += fmt(" bound=%s rejected=%d", hx(e.out_ident).c_str(), (int) e.error);
     if (e.kind == EV_LOAD || e.kind == EV_DELETE) s += fmt(" key=%s rc=%d", e.key.c_str(), e.rc);
     if (e.kind == EV_DATA) s += fmt(" c2s=%zu s2c=%zu ok=%d", e.n_c2s, e.n_s2c, (int) e.data_ok);
+    if (e.kind == EV_HS && e.revsrv) s += fmt(" REVOCABLE-SERVER-LEAF rejected-as-revoked=%d", (int) e.rejected_revoked);
+    if (e.kind == EV_CRL) s += fmt(" %s := %s%s%s rc=%d", issuer_name[e.issuer], g_crlv[e.issuer][e.ver].file, g_crlv[e.issuer][e.ver].revokes ? "(revokes the leaf)" : "", e.auth_first ? " authenticated-before-insert" : " unauthenticated", e.rc);
+    if (e.kind == EV_CRLDEL) s += e.del_all ? std::string(" psCRL_DeleteAll") : fmt(" psCRL_GetCRLForCert+psCRL_Delete %s rc=%d", issuer_name[e.issuer], e.rc);
+    if (e.kind == EV_VALIDATE) s += fmt(" %s%s via %s -> rc=%d revokedStatus=%d authStatus=%d", chain_name[e.chain], e.leaf_only ? "(leaf only)" : "", e.via_anchors ? "matrixValidateCerts" : "psX509AuthenticateCert", e.rc, e.rstat, e.astat);
     return s;
 }
 
@@ -540,23 +667,51 @@ bool lin_dfs(const std::vector<ObjEv> &h, uint32_t remaining, bool state, std::s
     return false;
 }
 
+// Wing-Gong search over the history of one issuer's CRL register.  State: 0 = no CRL cached, 1 + v = version v cached.
+// An event is admissible in a state contained in 'allowed' and then moves the register to 'write' (unless < 0).
+struct RegEv { uint64_t s, e; uint32_t allowed; int write; const Ev *src; };
+bool reg_dfs(const std::vector<RegEv> &h, uint32_t remaining, int state, std::set<uint64_t> &dead) {
+    if (!remaining) return true;
+    uint64_t key = ((uint64_t) remaining << 4) | (uint64_t) state;
+    if (dead.count(key)) return false;
+    for (size_t i = 0; i < h.size(); i++) {
+        if (!(remaining >> i & 1)) continue;
+        bool minimal = true;
+        for (size_t j = 0; j < h.size() && minimal; j++) if (j != i && (remaining >> j & 1) && h[j].e < h[i].s) minimal = false;
+        if (!minimal) continue;
+        if (!(h[i].allowed >> state & 1)) continue;
+        if (reg_dfs(h, remaining & ~(1u << i), h[i].write < 0 ? state : h[i].write, dead)) return true;
+    }
+    dead.insert(key);
+    return false;
+}
+
 struct RunStats { std::set<std::string> overlaps; std::map<std::string, uint64_t> counts; bool overlapped = false; };
 
 const char *hs_kind(const Ev &e) {
+    if (e.revsrv) return e.completed ? "hs-rev-accepted" : "hs-rev-rejected";
     static const char *n[2][3] = { { "hs-full-id", "hs-full-tkt12", "hs-full-13" }, { "hs-res-id", "hs-res-tkt12", "hs-res-13" } };
     return n[e.resumed ? 1 : 0][e.mode];
 }
-std::string ev_kind(const Ev &e) { return e.kind == EV_HS ? hs_kind(e) : ev_name[e.kind]; }
+std::string ev_kind(const Ev &e) {
+    if (e.kind == EV_CRL) return e.auth_first ? "crl-load-auth" : "crl-load-unauth";
+    if (e.kind == EV_CRLDEL) return e.del_all ? "crl-delete-all" : "crl-delete";
+    if (e.kind == EV_VALIDATE) return e.leaf_only ? "validate-leaf" : "validate";
+    return e.kind == EV_HS ? hs_kind(e) : ev_name[e.kind];
+}
 // shared structures an event touches
 std::vector<const char *> ev_structs(const Ev &e) {
     std::vector<const char *> r;
     switch (e.kind) {
     case EV_HS:
         r.push_back("prng");
+        if (e.revsrv) { r.push_back("crl"); r.push_back("anchors"); if (e.mode == ID12) r.push_back("sesscache"); break; }   // own server key set: own ticket keys / ECC cache
         if (e.mode == ID12) r.push_back("sesscache"); else r.push_back("ticketkeys");
         if (e.ecdhe && !(e.resumed && e.mode != PSK13)) r.push_back("ecc-cache");
-        if (!e.resumed) r.push_back("crl");
+        if (!e.resumed) { r.push_back("crl"); r.push_back("anchors"); }
         break;
+    case EV_VALIDATE: r.push_back("crl"); if (e.via_anchors) r.push_back("anchors"); break;
+    case EV_CRLDEL: r.push_back("crl"); break;
     case EV_CLOSE: if (e.mode == ID12) r.push_back("sesscache"); break;
     case EV_POISON: if (e.error) r.push_back("sesscache"); break;
     case EV_LOAD: case EV_DELETE: r.push_back("ticketkeys"); break;
@@ -566,7 +721,7 @@ std::vector<const char *> ev_structs(const Ev &e) {
     return r;
 }
 
-void analyse(const std::vector<Worker *> &ws, int N, const std::string &desc, RunStats &st, const std::set<std::string> &keys_at_start) {
+void analyse(const std::vector<Worker *> &ws, int N, const std::string &desc, RunStats &st, const std::set<std::string> &keys_at_start, const int crl_init[2]) {
     std::vector<const Ev *> all;
     for (auto *w : ws) for (auto &e : w->log) all.push_back(&e);
     auto dump = [&](const std::vector<const Ev *> &v) { std::string s; std::vector<const Ev *> o(v); std::sort(o.begin(), o.end(), [](const Ev *a, const Ev *b) { return a->s < b->s; });
@@ -576,6 +731,8 @@ void analyse(const std::vector<Worker *> &ws, int N, const std::string &desc, Ru
     for (auto *e : all) {
         st.counts[std::string("ev:") + ev_kind(*e)]++;
         if (e->kind == EV_HS) {
+            if (e->revsrv) VF_CHECK(e->completed || e->rejected_revoked, "handshake-failed-under-concurrency", "%s neither completed nor was refused by the client with certificate_revoked (%s); %s", ev_str(*e).c_str(), e->note.c_str(), desc.c_str());
+            else
             VF_CHECK(e->completed, "handshake-failed-under-concurrency", "%s did not complete (%s); a useless credential must fall back to a full handshake; %s", ev_str(*e).c_str(), e->note.c_str(), desc.c_str());
             VF_CHECK(e->resumed == e->cres, "resumed-flag-disagrees", "%s: server resumed=%d client resumed=%d; %s", ev_str(*e).c_str(), (int) e->resumed, (int) e->cres, desc.c_str());
             VF_CHECK(!(e->resumed && e->attempt < 0), "resumed-without-credential", "%s; %s", ev_str(*e).c_str(), desc.c_str());
@@ -585,7 +742,22 @@ void analyse(const std::vector<Worker *> &ws, int N, const std::string &desc, Ru
         }
         if (e->kind == EV_DATA) VF_CHECK(e->data_ok, "data-mismatch-under-concurrency", "%s: %s; %s", ev_str(*e).c_str(), e->note.c_str(), desc.c_str());
         if (e->kind == EV_LOAD) VF_CHECK(e->rc >= 0, "ticket-key-load-failed", "%s; %s", ev_str(*e).c_str(), desc.c_str());
-        if (e->kind == EV_CRL) VF_CHECK(e->rc == 1, "crl-update-failed", "psX509ParseCRL/psCRL_Update rc=%d; %s", e->rc, desc.c_str());
+        if (e->kind == EV_CRL) VF_CHECK(e->rc == 1, "crl-update-failed", "%s: psX509ParseCRL/psX509AuthenticateCRL/psCRL_Update rc=%d %s; %s", ev_str(*e).c_str(), e->rc, e->note.c_str(), desc.c_str());
+        if (e->kind == EV_CRLDEL) VF_CHECK(e->note.empty(), "crl-delete-lost-entry", "%s: %s; %s", ev_str(*e).c_str(), e->note.c_str(), desc.c_str());
+        if (e->kind == EV_VALIDATE) {
+            // Sequentially (crypto/keyformat/x509.c psX509AuthenticateCert, crl.c psCRL_determineRevokedStatusBDT): the leaf's status is one of
+            // NOT_EXPECTED (no CRL of its issuer cached) / PASSED_* / REVOKED_*; only REVOKED_AND_AUTHENTICATED rejects; when the chain carries
+            // the issuer an unauthenticated CRL is authenticated with it first, so *_BUT_NOT_AUTHENTICATED cannot be the outcome.
+            const bool rev_auth = e->rstat == CRL_CHECK_REVOKED_AND_AUTHENTICATED, rev_unauth = e->rstat == CRL_CHECK_REVOKED_BUT_NOT_AUTHENTICATED;
+            const bool pass_auth = e->rstat == CRL_CHECK_PASSED_AND_AUTHENTICATED, pass_unauth = e->rstat == CRL_CHECK_PASSED_BUT_NOT_AUTHENTICATED, none = e->rstat == CRL_CHECK_NOT_EXPECTED;
+            st.counts[std::string("validate:") + (rev_auth ? "revoked" : rev_unauth ? "revoked-crl-unauthenticated" : pass_auth ? "passed" : pass_unauth ? "passed-crl-unauthenticated" : none ? "no-crl" : "other") + (g_chain[e->chain].revocable ? "" : "(leaf revoked by no version)")]++;
+            VF_CHECK(rev_auth || rev_unauth || pass_auth || pass_unauth || none, "unexpected-revoked-status", "%s; %s", ev_str(*e).c_str(), desc.c_str());
+            if (!g_chain[e->chain].revocable) VF_CHECK(!rev_auth && !rev_unauth && e->rc != PS_CERT_AUTH_FAIL_REVOKED, "unrevoked-certificate-reported-revoked", "%s: no CRL version used by the check lists this certificate; %s", ev_str(*e).c_str(), desc.c_str());
+            if (!e->leaf_only) VF_CHECK(!rev_unauth && !pass_unauth, "crl-left-unauthenticated-although-chain-carries-issuer", "%s: the validation authenticates a cached CRL with the issuer in the chain (under the table lock) before it reads the flag, so no sequential order ends with an unauthenticated CRL%s; %s",
+                                        ev_str(*e).c_str(), rev_unauth ? " - and this outcome ACCEPTS a revoked certificate" : "", desc.c_str());
+            if (rev_auth) VF_CHECK(e->rc == PS_CERT_AUTH_FAIL_REVOKED || (e->leaf_only && e->rc == PS_CERT_AUTH_FAIL), "revoked-certificate-accepted", "%s: CRL_CHECK_REVOKED_AND_AUTHENTICATED but the validation did not reject; %s", ev_str(*e).c_str(), desc.c_str());
+            else VF_CHECK(e->rc == PS_SUCCESS, "validation-failed-under-concurrency", "%s: a valid chain that is not (authentically) revoked failed to validate; %s", ev_str(*e).c_str(), desc.c_str());
+        }
         if (e->kind == EV_POISON) VF_CHECK(e->error, "corrupted-record-accepted", "%s: the server accepted a record with a flipped last byte; %s", ev_str(*e).c_str(), desc.c_str());
     }
     // ---- session cache entries: one object per session id
@@ -632,6 +804,32 @@ void analyse(const std::vector<Worker *> &ws, int N, const std::string &desc, Ru
                      (unsigned long long) d->second->e, desc.c_str());
         }
     }
+    // ---- CRL cache: one register per issuer
+    for (int is = 0; is < 2; is++) {
+        uint32_t all_states = (1u << (1 + N_CRLV[is])) - 1, revoking = 0, harmless = 0;
+        for (int v = 0; v < N_CRLV[is]; v++) (g_crlv[is][v].revokes ? revoking : harmless) |= 1u << (1 + v);
+        std::vector<RegEv> h; bool has_read = false;
+        for (auto *e : all) {
+            if (e->kind == EV_CRL && e->issuer == is && e->rc == 1) h.push_back({ e->s, e->e, all_states, 1 + e->ver, e });
+            if (e->kind == EV_CRLDEL && e->del_all) h.push_back({ e->s, e->e, all_states, 0, e });
+            if (e->kind == EV_CRLDEL && !e->del_all && e->issuer == is) h.push_back({ e->s, e->e, e->rc ? (all_states & ~1u) : 1u, e->rc ? 0 : -1, e });
+            if (e->kind == EV_VALIDATE && e->issuer == is) {
+                bool rev = e->rstat == CRL_CHECK_REVOKED_AND_AUTHENTICATED || e->rstat == CRL_CHECK_REVOKED_BUT_NOT_AUTHENTICATED, none = e->rstat == CRL_CHECK_NOT_EXPECTED;
+                uint32_t allowed = none ? 1u : g_chain[e->chain].revocable ? (rev ? revoking : harmless) : (revoking | harmless);
+                h.push_back({ e->s, e->e, allowed, -1, e }); has_read = true;
+            }
+            if (e->kind == EV_HS && e->revsrv && is == 0) { h.push_back({ e->s, e->e, e->completed ? (1u | harmless) : revoking, -1, e }); has_read = true; }
+        }
+        if (!has_read) continue;
+        st.counts["lin-objects:crl-register"]++;
+        if (h.size() > 26) { st.counts["lin-skipped(too-many-events)"]++; continue; }
+        std::set<uint64_t> dead;
+        if (reg_dfs(h, (uint32_t) ((1ull << h.size()) - 1), crl_init[is] < 0 ? 0 : 1 + crl_init[is], dead)) continue;
+        std::vector<const Ev *> v; for (auto &x : h) v.push_back(x.src);
+        VF_FAIL("not-serializable:crl-cache", "no sequential order of the operations on the cached CRL of %s (initially %s; consistent with real-time precedence) reproduces the observed revocation outcomes "
+                "(a leaf revoked by every version that was in the cache during its validation must be rejected, one revoked by none must pass):%s\n  %s", issuer_name[is],
+                crl_init[is] < 0 ? "none" : g_crlv[is][crl_init[is]].file, dump(v).c_str(), desc.c_str());
+    }
     // ---- overlap measurement (non-triviality)
     for (size_t i = 0; i < all.size(); i++) for (size_t j = i + 1; j < all.size(); j++) {
         const Ev *a = all[i], *b = all[j];
@@ -652,7 +850,17 @@ char task_state(int tid) {
     char *r = strrchr(buf, ')'); return (r && r[1] == ' ' && r[2]) ? r[2] : '?';
 }
 
-struct Program { int N = 2; int nseeds = 2; uint32_t yp = 0, sp = 0, up = 0; int nslots = 1; std::vector<std::vector<Op>> ops; uint64_t seed = 0; };
+struct Program { int N = 2; int nseeds = 2; uint32_t yp = 0, sp = 0, up = 0; int nslots = 1; std::vector<std::vector<Op>> ops; uint64_t seed = 0;
+                 int crl_theme = 0;                       // 0 = no CRL-cache operations beyond the occasional replacement; 1 = only revoking versions; 2 = any version; 3 = only harmless versions
+                 int crl_init[2] = { -1, -1 };            // CRL version of ca_rsa / ca_ec in the cache when the threads start (-1 = none)
+                 bool crl_init_auth[2] = { false, false }; };
+
+// version of issuer 'is' for a program of the given theme
+int pick_crl_version(vf::Tape &t, int theme, int is) {
+    std::vector<int> ok;
+    for (int v = 0; v < N_CRLV[is]; v++) if (theme == 2 || theme == 0 || (theme == 1) == g_crlv[is][v].revokes) ok.push_back(v);
+    return ok[t.below(ok.size())];
+}
 
 Program generate(vf::Tape &t) {
     Program p;
@@ -683,16 +891,54 @@ Program generate(vf::Tape &t) {
         }
         p.ops.push_back(ops);
     }
+    // ---- CRL cache activity (drawn after everything else, so that older tapes keep their meaning)
+    static const int THEME[8] = { 0, 1, 1, 1, 2, 2, 1, 3 };
+    p.crl_theme = THEME[t.below(8)];
+    if (p.crl_theme == 0) return p;
+    if (p.crl_theme == 1) for (auto &ops : p.ops) for (auto &o : ops) if (o.kind == OP_CRL) o.crl += 3;   // keep the theme: ca_rsa versions 3..5 revoke
+    bool allow_delete = p.crl_theme == 2 ? t.below(4) != 0 : t.below(4) == 3;
+    for (int is = 0; is < 2; is++) {
+        unsigned k = (unsigned) t.below(4);            // 0, 1: a not yet authenticated CRL ("fetched out of handshake"); 2: an authenticated one; 3: none
+        int v = pick_crl_version(t, p.crl_theme, is);
+        if (k != 3) { p.crl_init[is] = v; p.crl_init_auth[is] = k == 2; }
+    }
+    int cap = p.N == 8 ? 3 : p.N == 4 ? 5 : 8;
+    for (int i = 0; i < p.N; i++) {
+        int n = 1 + (int) t.below((uint64_t) cap);
+        for (int k = 0; k < n; k++) {
+            Op o; unsigned r = (unsigned) t.below(16);
+            o.kind = r < 8 ? OP_VALIDATE : r < 11 ? OP_CRL : r < 12 ? (allow_delete ? OP_CRL_DELETE : OP_CRL) : r < 14 ? OP_CONNECT_REV : OP_VALIDATE;
+            unsigned a = (unsigned) t.u8(), b = (unsigned) t.u8();
+            if (o.kind == OP_VALIDATE) {
+                static const int CH[8] = { 0, 0, 0, 0, 2, 1, 2, 3 };
+                o.chain = CH[a & 7]; o.via_anchors = (a >> 3) & 1; o.leaf_only = o.via_anchors && ((a >> 4) & 7) == 7;
+            } else if (o.kind == OP_CRL) {
+                o.issuer = (a & 3) == 3 ? 1 : 0; o.auth_first = ((a >> 2) & 3) == 3; o.crl = pick_crl_version(t, p.crl_theme, o.issuer);
+            } else if (o.kind == OP_CRL_DELETE) {
+                o.issuer = (a & 3) == 3 ? 1 : 0; o.del_all = (a >> 2) & 1;
+            } else {
+                o.mode = (int) (a % 3); o.suite = (int) (b % 5); o.curve = (int) ((b >> 4) % 3); o.c2s = 1 + (int) ((a >> 6) & 1); o.s2c = 2; o.srv_first = (b >> 7) & 1;
+            }
+            size_t pos = (size_t) t.below(p.ops[(size_t) i].size() + 1);
+            p.ops[(size_t) i].insert(p.ops[(size_t) i].begin() + (long) pos, o);
+        }
+    }
     return p;
 }
 std::string describe(const Program &p) {
-    std::string s = fmt("N=%d slots=%d yield=%u/%u/%u per 1024 seed=%llu ops:", p.N, p.nslots, p.yp, p.sp, p.up, (unsigned long long) p.seed);
+    std::string s = fmt("N=%d slots=%d yield=%u/%u/%u per 1024 seed=%llu", p.N, p.nslots, p.yp, p.sp, p.up, (unsigned long long) p.seed);
+    for (int is = 0; is < 2; is++) s += fmt(" crl[%s]=%s%s", issuer_name[is], p.crl_init[is] < 0 ? "none" : g_crlv[is][p.crl_init[is]].file, p.crl_init[is] < 0 ? "" : p.crl_init_auth[is] ? "(authenticated)" : "(unauthenticated)");
+    s += " ops:";
     for (int i = 0; i < p.N; i++) {
         s += fmt(" T%d[", i);
         for (size_t k = 0; k < p.ops[i].size(); k++) {
             const Op &o = p.ops[i][k]; if (k) s += ",";
             s += op_name[o.kind];
             if (o.kind == OP_CONNECT || o.kind == OP_RESUME) s += fmt(":%s/s%d/c%d/slot%d%s%s%s", mode_name[o.mode], o.suite, o.curve, o.slot, o.hold ? "/hold" : "", (o.clone && o.kind == OP_RESUME) ? "/clone" : "", o.poison ? "/poison" : "");
+            if (o.kind == OP_CONNECT_REV) s += fmt(":%s/s%d/c%d", mode_name[o.mode], o.suite, o.curve);
+            if (o.kind == OP_CRL) s += fmt(":%s%s", g_crlv[o.issuer][o.crl % N_CRLV[o.issuer]].file, o.auth_first ? "/auth" : "");
+            if (o.kind == OP_CRL_DELETE) s += o.del_all ? std::string(":all") : fmt(":%s", issuer_name[o.issuer]);
+            if (o.kind == OP_VALIDATE) s += fmt(":%s%s%s", chain_name[o.chain], o.via_anchors ? "/anchors" : "", o.leaf_only ? "/leaf-only" : "");
         }
         s += "]";
     }
@@ -747,6 +993,12 @@ void run_once(const Program &p, int run_idx, uint64_t yield_seed, const std::str
     std::string desc = desc0 + fmt(" | run %d yield_seed=%llu", run_idx, (unsigned long long) yield_seed);
     int raw0 = g_nraw.load(std::memory_order_relaxed);
     std::set<std::string> keys_at_start(g_keys_live.begin(), g_keys_live.end());
+    // the CRL cache starts every run in the state the program names (main thread, before the workers exist)
+    psCRL_DeleteAll();
+    for (int is = 0; is < 2; is++) if (p.crl_init[is] >= 0) {
+        std::string err; int ins = crl_install(is, p.crl_init[is], p.crl_init_auth[is], err);
+        VF_CHECK(ins == 1, "harness-setup-failed", "initial CRL %s: rc=%d %s; %s", g_crlv[is][p.crl_init[is]].file, ins, err.c_str(), desc.c_str());
+    }
     pthread_barrier_t start; pthread_barrier_init(&start, NULL, (unsigned) p.N);
     std::vector<Worker *> ws;
     for (int i = 0; i < p.N; i++) {
@@ -789,7 +1041,8 @@ void run_once(const Program &p, int run_idx, uint64_t yield_seed, const std::str
     g_handled.store(g_nraw.load(std::memory_order_acquire), std::memory_order_relaxed);
     pthread_barrier_destroy(&start);
     struct Cleanup { std::vector<Worker *> &ws; ~Cleanup() { for (auto *w : ws) delete w; } } cleanup{ ws };
-    // ---- leave the shared world in a normal state for the next run: empty slots, one ticket key
+    // ---- leave the shared world in a normal state for the next run: empty slots, one ticket key, empty CRL cache
+    psCRL_DeleteAll();
     for (auto &sl : g_slots) { delete sl.cred; sl.cred = nullptr; }
     while (g_keys_live.size() > 1) { std::string v = g_keys_live.front(); g_keys_live.pop_front(); int rc = delete_ticket_key(v); if (rc < 0) fprintf(stderr, "[c20] cleanup: delete of idle key %s failed rc=%d\n", v.c_str(), rc); }
     uint64_t yields = 0, locks = 0; for (auto *w : ws) { yields += w->yields; locks += w->lock_calls; }
@@ -807,7 +1060,7 @@ void run_once(const Program &p, int run_idx, uint64_t yield_seed, const std::str
     }
     if (!first_sig.empty()) { st.counts["tsan-reports"] += (uint64_t) (raw1 - raw0); throw vf::Fail{ first_sig, first_text + "  " + desc }; }
     // ---- oracle 3 and the rest
-    analyse(ws, p.N, desc, st, keys_at_start);
+    analyse(ws, p.N, desc, st, keys_at_start, p.crl_init);
 }
 
 void prop(vf::Tape &t, vf::Ctx &c) {
@@ -827,6 +1080,8 @@ void prop(vf::Tape &t, vf::Ctx &c) {
             c.count(fmt("threads=%d", p.N)); c.count("runs", (uint64_t) done);
             c.count(st.overlapped ? "program:overlapped" : "program:no-overlap");
             for (auto &o : st.overlaps) c.count("overlap:" + o.substr(o.find('@') + 1));
+            for (auto &o : st.overlaps) if (o.size() > 4 && o.compare(o.size() - 4, 4, "@crl") == 0 && (o.find("validate") != std::string::npos || o.find("crl-") != std::string::npos || o.find("hs-rev") != std::string::npos)) c.count("crl-overlap:" + o);
+            c.count(fmt("crl-theme=%d", p.crl_theme));
             if (st.overlapped) {
                 std::string shape;
                 for (int i = 0; i < p.N; i++) { std::vector<std::string> k; for (auto &o : p.ops[(size_t) i]) k.push_back(std::string(op_name[o.kind]) + ((o.kind == OP_CONNECT || o.kind == OP_RESUME) ? mode_name[o.mode] : "")); std::sort(k.begin(), k.end()); shape += "|"; for (auto &x : k) shape += x + ","; }
@@ -857,18 +1112,24 @@ void vf_global_init(int, char **) {
     if (matrixSslOpen() < 0) { fprintf(stderr, "[c20] matrixSslOpen failed\n"); abort(); }
     std::string d = verif_dir() + "/pki/";
     if (matrixSslNewKeys(&g_srv, NULL) < 0 || matrixSslNewKeys(&g_cli, NULL) < 0) abort();
-    int rc = matrixSslLoadKeys(g_srv, (d + "srv_rsa.pem").c_str(), (d + "srv_rsa.key").c_str(), NULL, (d + "ca_rsa.pem").c_str(), NULL);
+    // both servers send leaf + CA, so the client's validation sees cert->next (the CRL issuer) like it does for any chain with intermediates
+    int rc = matrixSslLoadKeys(g_srv, (verif_dir() + "/props/C20/pki/srv_rsa_chain.pem").c_str(), (d + "srv_rsa.key").c_str(), NULL, (d + "ca_rsa.pem").c_str(), NULL);
     if (rc < 0) { fprintf(stderr, "[c20] loading server keys failed rc=%d\n", rc); abort(); }
-    rc = matrixSslLoadKeys(g_cli, NULL, NULL, NULL, (d + "ca_rsa.pem").c_str(), NULL);
+    std::string c20pki = verif_dir() + "/props/C20/pki/";
+    if (matrixSslNewKeys(&g_srv_rev, NULL) < 0) abort();
+    rc = matrixSslLoadKeys(g_srv_rev, (c20pki + "good_rsa_chain.pem").c_str(), (c20pki + "good_rsa.key").c_str(), NULL, NULL, NULL);
+    if (rc < 0) { fprintf(stderr, "[c20] loading the keys of the revocable server identity failed rc=%d\n", rc); abort(); }
+    rc = matrixSslLoadKeys(g_cli, NULL, NULL, NULL, (d + "ca_rsa.pem;" + d + "ca_ec.pem").c_str(), NULL);
     if (rc < 0) { fprintf(stderr, "[c20] loading client keys failed rc=%d\n", rc); abort(); }
     std::string k0 = new_key_name_locked();
     if (load_ticket_key(k0) < 0) { fprintf(stderr, "[c20] loading ticket key failed\n"); abort(); }
     g_keys_live.push_back(k0);
-    static const char *crl[] = { "crl_rsa_a.der", "crl_rsa_b.der", "crl_rsa_c.der" };
-    for (int i = 0; i < 3; i++) {
-        std::string p = verif_dir() + "/props/C20/crl/" + crl[i];
+    auto slurp = [](const std::string &p, Bytes &out) {
         FILE *f = fopen(p.c_str(), "rb"); if (!f) { fprintf(stderr, "[c20] cannot open %s\n", p.c_str()); abort(); }
-        uint8_t buf[4096]; size_t n = fread(buf, 1, sizeof buf, f); fclose(f); g_crl_der[i].assign(buf, buf + n);
-    }
+        uint8_t buf[8192]; size_t n = fread(buf, 1, sizeof buf, f); fclose(f); out.assign(buf, buf + n);
+    };
+    for (int is = 0; is < 2; is++) for (int v = 0; v < N_CRLV[is]; v++) slurp(verif_dir() + "/props/C20/crl/" + g_crlv[is][v].file, g_crlv[is][v].der);
+    for (auto &c : g_chain) slurp(verif_dir() + "/" + c.leaf, c.leaf_pem);
+    slurp(d + "ca_rsa.pem", g_ca_pem[0]); slurp(d + "ca_ec.pem", g_ca_pem[1]);
 }
 }
